@@ -39,6 +39,7 @@ var Prop = &engine.Prop{
 	Kinds: []engine.Kind{
 		{Name: "sched", Quick: 12000, Thorough: 800000, Fn: schedCase},
 		{Name: "stress", Quick: 16, Thorough: 960, Repeat: 20, Fn: stressCase},
+		{Name: "many-keys", Quick: 40, Thorough: 1600, Fn: manyKeysCase},
 	},
 	Floors: map[string]int64{
 		"queued_arrivals":      200,
@@ -806,4 +807,98 @@ func stressCase(k *engine.Case) {
 	if n := semap.VerifEntries(m); n != 0 {
 		k.Fail("residue", "stress: all released, nobody waits, but the container keeps %d entrie(s)", n)
 	}
+}
+
+// manyKeysCase: thousands of keys pass through one map (every first acquire of a key creates
+// its entry, the last release drops it). Whatever housekeeping the container does along the
+// way, every key that is held stays held: while a writer (or rwRatio readers) hold a key, a
+// further request for it - issued with a context that is already over, so that it can only be
+// served at once or fail - must fail, and when everything is released nothing is kept.
+func manyKeysCase(k *engine.Case) {
+	r := k.R
+	kinds := mapKinds()
+	mkd := kinds[r.Intn(len(kinds))]
+	ratio := []int{1, 2, 3, 10}[r.Intn(4)]
+	m := mkd.mk(ratio)
+	n := 4200 + r.Intn(5000)
+	keep := 1 + r.Intn(40) // this many keys stay held at any time (window)
+	k.Logf("map=%s ratio=%d: %d keys acquired one after the other, %d held at a time", mkd.name, ratio, n, keep)
+	k.Nontrivial()
+	dead, cancel := context.WithCancel(context.Background())
+	cancel()
+	type held struct {
+		key   int
+		write bool
+		ws    []*semap.Weighted
+	}
+	var window []held
+	release := func(h held) {
+		for _, w := range h.ws {
+			if h.write {
+				m.ReleaseWrite(h.key, w)
+			} else {
+				m.ReleaseRead(h.key, w)
+			}
+		}
+	}
+	probe := func(h held, when string) bool {
+		// the key is fully held: a writer, or rwRatio readers
+		if w, err := m.AcquireWrite(dead, h.key); err == nil {
+			k.Fail("exclusion", "key %d is held (%s, taken %s) and a second writer was admitted beside the holder(s); map=%s ratio=%d, %d keys created so far", h.key, map[bool]string{true: "one writer", false: fmt.Sprintf("%d readers", len(h.ws))}[h.write], when, mkd.name, ratio, h.key+1)
+			m.ReleaseWrite(h.key, w)
+			return false
+		}
+		if w, err := m.AcquireRead(dead, h.key); err == nil {
+			k.Fail("exclusion", "key %d is held (%s, taken %s) and a further reader was admitted beside the holder(s); map=%s ratio=%d, %d keys created so far", h.key, map[bool]string{true: "one writer", false: fmt.Sprintf("%d readers", len(h.ws))}[h.write], when, mkd.name, ratio, h.key+1)
+			m.ReleaseRead(h.key, w)
+			return false
+		}
+		return true
+	}
+	for i := 0; i < n; i++ {
+		h := held{key: i, write: r.Intn(2) == 0}
+		cnt := 1
+		if !h.write {
+			cnt = ratio
+		}
+		for j := 0; j < cnt; j++ {
+			var w *semap.Weighted
+			var err error
+			if h.write {
+				w, err = m.AcquireWrite(context.Background(), h.key)
+			} else {
+				w, err = m.AcquireRead(context.Background(), h.key)
+			}
+			if err != nil {
+				k.Fail("acquire-failed", "acquire #%d of a fresh key %d failed: %v", j, h.key, err)
+				return
+			}
+			h.ws = append(h.ws, w)
+		}
+		k.Evals(1)
+		if !probe(h, "just now") {
+			return
+		}
+		window = append(window, h)
+		if len(window) > keep {
+			old := window[0]
+			window = window[1:]
+			if !probe(old, fmt.Sprintf("%d keys ago", keep)) {
+				return
+			}
+			release(old)
+		}
+	}
+	for _, h := range window {
+		if !probe(h, "earlier") {
+			return
+		}
+		release(h)
+	}
+	if e := semap.VerifEntries(m); e != 0 {
+		k.Fail("residue", "all %d keys were released but the map keeps %d entries", n, e)
+		return
+	}
+	k.Count("many_keys_cases", 1)
+	k.Count("many_keys_entries_created", int64(n))
 }
